@@ -1138,6 +1138,17 @@ func (r *Resolver) answer(ctx context.Context, req, resp *dns.Msg, parentDS []dn
 		}
 	}
 
+	if targetMsg != nil && targetMsg.Rcode == dns.RcodeServerFailure {
+		// The DNAME target leg failed — its own validation refused the
+		// data, or its servers could not be reached. There is nothing to
+		// compose: fail the outer query with the leg's extended error so
+		// the handler builds the ordinary SERVFAIL + EDE reply. The splice
+		// below copies only the rcode; an EDNS client would get a bare
+		// SERVFAIL that still carries the outer DNAME/CNAME while the
+		// reason stays behind in the target's OPT record.
+		return nil, dnameLegFailure(targetMsg)
+	}
+
 	if targetMsg != nil {
 		// Splice the target response into resp *after* DNSSEC check.
 		// The internal recursion already validated the target zone
@@ -1188,6 +1199,19 @@ func (r *Resolver) answer(ctx context.Context, req, resp *dns.Msg, parentDS []dn
 	resp = r.clearAdditional(req, resp, extra...)
 
 	return resp, nil
+}
+
+// dnameLegFailure turns a SERVFAIL reply of a DNAME target leg into the
+// error the outer query fails with, keeping the leg's Extended DNS Error.
+func dnameLegFailure(target *dns.Msg) error {
+	code, text := uint16(dns.ExtendedErrorCodeOther), "DNAME target resolution failed"
+	if ede := dnsutil.GetEDE(target); ede != nil {
+		code = ede.InfoCode
+		if ede.ExtraText != "" {
+			text += ": " + ede.ExtraText
+		}
+	}
+	return &dnsutil.EDEError{Code: code, Message: text}
 }
 
 func (r *Resolver) authority(ctx context.Context, req, resp *dns.Msg, parentDS []dns.RR, zone string) (*dns.Msg, error) {
